@@ -180,7 +180,7 @@ func e2eExec(c *e2eCase, work string, tr *vTrace, logLines bool) (*e2eResult, ma
 	var stopAt, resumedAt time.Time
 	var pauseMu sync.Mutex
 	pauseStarted, pausedNow := false, false
-	pData, pKeep, dataAfter := 0, 0, 0
+	pData, pKeep, dataAfter, nPauses := 0, 0, 0, 0
 	// steering goroutines that outlive the transfer (pause cycles) record nothing once it is over
 	var overMu sync.Mutex
 	over := false
@@ -246,6 +246,7 @@ func e2eExec(c *e2eCase, work string, tr *vTrace, logLines bool) (*e2eResult, ma
 					pauseStarted = true
 					pauseMu.Lock()
 					pausedNow = true
+					nPauses++
 					pauseMu.Unlock()
 					stopAt = time.Now()
 					tr.Emit(map[string]any{"e": "pause", "run": c.ID, "g": m.G}, func() { t.pauseTransferringFiles() })
@@ -267,6 +268,7 @@ func e2eExec(c *e2eCase, work string, tr *vTrace, logLines bool) (*e2eResult, ma
 								time.Sleep(30 * time.Millisecond)
 								pauseMu.Lock()
 								pausedNow = true
+								nPauses++
 								pauseMu.Unlock()
 								if !emitLive(map[string]any{"e": "pause", "run": c.ID, "g": -1}, func() { t.pauseTransferringFiles() }) {
 									return
@@ -449,6 +451,9 @@ func e2eExec(c *e2eCase, work string, tr *vTrace, logLines bool) (*e2eResult, ma
 	if !c.Opts.Upload {
 		cclaims, sclaims = claims, len(tops)
 	}
+	pauseMu.Lock()
+	nPausesSeen := nPauses
+	pauseMu.Unlock()
 	cres, sres := "fail", "fail"
 	if res.ClientOK {
 		cres = "ok"
@@ -464,7 +469,7 @@ func e2eExec(c *e2eCase, work string, tr *vTrace, logLines bool) (*e2eResult, ma
 		"extra": len(extra), "touched": len(touched), "shown": res.ShownOK, "nshown": len(names), "ntops": len(tops),
 		"npresent": npresent, "keptok": keptok, "verified": verified, "claimsame": claimSame,
 		"mutapplied": mutApplied, "vmgrow": e2eVmPeakMB() - vm0,
-		"pdata": pData, "pkeep": pKeep, "dataafter": dataAfter, "pausems": e2ePauseMs(&c.Plan)}
+		"pdata": pData, "pkeep": pKeep, "dataafter": dataAfter, "pausems": e2ePauseMs(&c.Plan), "npauses": nPausesSeen}
 	tr.Emit(fs, nil)
 	if c.Plan.CheckLeft {
 		tr.Emit(map[string]any{"e": "left", "run": c.ID, "n": left}, nil)
